@@ -21,7 +21,7 @@ HERE = os.path.dirname(os.path.dirname(os.path.abspath(__file__)))
 SPEC = os.path.join(HERE, "spec")
 BASE = 32768
 SLACK = 0            # allowance of the single-threaded decoders beyond max(limit, LZMA_MEMUSAGE_BASE): none needed
-SLACK_MT = 65536     # threaded decoder: thread table, coder structures, index hash (not in its own accounting)
+SLACK_MT = 16384     # threaded decoder: thread table, coder structures, index hash (not in its own accounting)
 VARIANTS_BROKEN = {"set_accepts_small": "MCMemLimitSt.cfg", "usage_not_updated": "MCMemLimitSt.cfg",
                    "compare_after_alloc": "MCMemLimitSt.cfg", "threading_test_uses_stop": "MCMemLimitMt.cfg",
                    "can_start_uses_stop": "MCMemLimitMt.cfg"}
